@@ -301,8 +301,6 @@ def check_multi(acc, name, only=None):
             n_rows = len(cand_arg) if isinstance(cand, tuple) else (len(X) if cand is None else len(cand))
             if not avail or len(cnt) < n_rows:
                 continue  # empty availability rows: known non-termination (C07)
-            if name == "IntervalEstimationThreshold" and any(0 < c < m for c in cnt.values()):
-                continue
             key = (name, ci)
             inputs = {"X": X.copy(), "y": y.copy()}
             if cand_arg is not None:
